@@ -373,18 +373,24 @@ Section PurePulse.
   Definition untouched (m mi : nmap) (c : nat) : Prop :=
     forall y, desc m c y -> valid (mi y) = true /\ cur (mi y) = cur (m y).
   Definition swept (now : N) (m mi : nmap) (c : nat) : Prop :=
-    cur (mi c) = LRecalc /\ forall y, desc m c y -> (valid (mi y) = false <-> (sched (m y) <= now)%N).
+    cur (mi c) = LRecalc /\
+    forall y, desc m c y -> (valid (mi y) = false <-> (sched (m y) <= now)%N /\ agg (m y) <> NEVER).
 
-  Lemma pulse_aux_exact now : (now < NEVER)%N -> forall f G s x s',
+  (* for ANY pulse instant, MUSCLE_TIME_NEVER included: below a frame's node x exactly the nodes fire whose time is
+     <= now and whose aggregate is finite (they are reachable through scheduled lists); x itself fires iff its time is
+     <= now *)
+  Lemma pulse_aux_exact now : forall f G s x s',
     Good G (nd s) ->
     (forall y, desc (nd s) x y -> valid (nd s y) = true) ->
     (forall y, desc (nd s) x y -> y <> x -> su (cur (nd s y))) ->
-    (forall c y, desc (nd s) x c -> desc (nd s) c y -> (agg (nd s c) <= sched (nd s y))%N) ->
+    (forall c y, desc (nd s) x c -> desc (nd s) c y ->
+                 (agg (nd s c) <= sched (nd s y))%N /\ (agg (nd s c) <= agg (nd s y))%N) ->
     pulse_aux pl f now s x = Some s' ->
-    (forall y, desc (nd s) x y -> (valid (nd s' y) = false <-> (sched (nd s y) <= now)%N)) /\
+    (forall y, desc (nd s) x y ->
+       (valid (nd s' y) = false <-> (sched (nd s y) <= now)%N /\ (y = x \/ agg (nd s y) <> NEVER))) /\
     (parent (nd s x) <> None -> cur (nd s' x) = LRecalc).
   Proof.
-    intros Hnow. induction f as [|f IH]; intros G s x s' Hg Hval Hsu HLB H; [discriminate|].
+    induction f as [|f IH]; intros G s x s' Hg Hval Hsu HLB H; [discriminate|].
     pose proof H as Hwhole. simpl in H.
     destruct (pulse_self pl f s x now) as [s1|] eqn:Hs; [|discriminate].
     destruct (loop_sched (pulse_aux pl f now) f x now s1) as [s2|] eqn:Hl; [|discriminate].
@@ -426,13 +432,18 @@ Section PurePulse.
         + eapply desc_trans; eauto.
         + intro; subst y. now apply (Hxc c).
       - intros a y Ha Hy. apply Hdi in Ha. apply Hdi in Hy.
-        destruct (Hsti a) as (_&_&->). destruct (Hsti y) as (_&->&_). apply HLB; [eapply desc_trans; eauto|assumption].
+        destruct (Hsti a) as (_&_&->). destruct (Hsti y) as (_&->&->). apply HLB; [eapply desc_trans; eauto|assumption].
       - split; [eapply pulse_aux_good; eauto|]. split; [|split].
         + intro y. destruct (Hsti y) as (A1&A2&A3). destruct (Hsc' y) as (B1&B2&B3). repeat split; congruence.
         + rewrite <- Hvxi. apply Hv'. intro Hd. apply Hdi in Hd. now apply (Hxc c).
         + intros c' Hc'x. destruct (Nat.eq_dec c' c) as [->|Hne].
           * right. split; [apply Hrec; rewrite Hpc; discriminate|].
-            intros y Hd. destruct (Hsti y) as (_&<-&_). apply Hex. now apply Hdi.
+            assert (Hacn : agg (m c) <> NEVER).
+            { destruct (Hsti c) as (_&_&<-). now apply (c_k4 _ (i_core _ (g_inv _ _ Hgi)) c). }
+            intros y Hd. destruct (Hsti y) as (_&Hsy&Hay).
+            destruct (Hex y (proj2 (Hdi c y) Hd)) as [E1 E2]. rewrite Hsy, Hay in E1, E2. split.
+            -- intro Hv. destruct (E1 Hv) as [Hle [->|Hn]]; auto.
+            -- intros [Hle Hn]. apply E2. auto.
           * assert (Hd1 : forall y, desc m c' y -> ~ desc (nd si) c y).
             { intros y Hy Hd. apply Hdi in Hd. apply (siblings_disjoint m x c' c y Hac Hc'x Hcx Hne Hy Hd). }
             assert (Hd2 : forall y, desc m c' y -> ~ desc (nd si) y c).
@@ -457,19 +468,21 @@ Section PurePulse.
       + assert (Hvx : valid (nd s x) = true) by (apply (Hval x Hd)).
         rewrite Hvx2, Hv1, Hvx. unfold m. intuition congruence.
       + destruct (desc_via_child m x y Hd Hyx) as (c & Hcx & Hdc).
-        destruct (Hch2 c Hcx) as [Hun|[_ Hsw]]; [|now apply Hsw].
+        destruct (Hch2 c Hcx) as [Hun|[_ Hsw]]; [|rewrite (Hsw y Hdc); unfold m; intuition congruence].
         destruct (Hun y Hdc) as [Hvy _]. destruct (Hun c (desc_self _ _)) as [_ Hcc].
         assert (Hdxc : desc m x c) by (eapply desc_child; [constructor|exact Hcx]).
         assert (Hcne : c <> x) by (intro; subst c; now apply (wf_noself _ _ (c_wf _ (i_core _ (g_inv _ _ Hg))) x)).
-        assert (Hlate : (now < agg (m c))%N).
+        destruct (HLB c y Hdxc Hdc) as [Hlb1 Hlb2].
+        assert (Hnot : ~ ((sched (m y) <= now)%N /\ agg (m y) <> NEVER)).
         { destruct (Hst2 c) as (Hpc2 & _ & Hac2). destruct (Hsu c Hdxc Hcne) as [Hcs|Hu].
           - assert (Hin : In c (ls (nd s2 x))).
             { pose proof (wf_par _ _ Hwf2 c x (fun F => F)) as Hw. rewrite Hcc, Hcs in Hw.
               apply Hw; [congruence|discriminate]. }
             pose proof (sorted_head_le (nd s2) (ls (nd s2 x)) c (c_k5 _ Hcore2 x) Hin) as Hle.
-            destruct (ls (nd s2 x)) as [|h t]; [destruct Hin|]. rewrite Hac2 in Hle. lia.
-          - destruct (c_k4 _ Hcore2 c) as [_ HU]. rewrite Hcc, Hu in HU. rewrite <- Hac2, (HU eq_refl). exact Hnow. }
-        pose proof (HLB c y Hdxc Hdc) as Hlb. unfold m in *. split; [congruence|lia].
+            destruct (ls (nd s2 x)) as [|h t]; [destruct Hin|]. rewrite Hac2 in Hle. unfold m in *. lia.
+          - destruct (c_k4 _ Hcore2 c) as [_ HU]. rewrite Hcc, Hu in HU. specialize (HU eq_refl). rewrite Hac2 in HU.
+            pose proof (proj2 (c_k6 _ (i_core _ (g_inv _ _ Hg)) y)) as Hk6. unfold m in *. intros [_ Hn]. apply Hn. lia. }
+        unfold m in *. split; [congruence|]. intros [Hle [F|Hn]]; [congruence|]. exfalso. apply Hnot. auto.
     - intro Hpx. unfold resched_up in Hr. destruct (Hst2 x) as (Hpx2 & _). rewrite Hpx2 in Hr.
       destruct (parent (m x)) as [p|] eqn:Hp; [|congruence].
       assert (Hpx' : p <> x) by (intro; subst; apply (Hns2 x); congruence).
@@ -550,6 +563,66 @@ Section PurePulse.
       now destruct (resched_scalars f (nd s2) p x LRecalc m3 Hp Hpx Hns2 Hr y) as (_&_&_&?&_).
   Qed.
 
+  (* pulse_exact_gen: the same for ANY pulse instant, MUSCLE_TIME_NEVER included.  On a freshly recalculated tree
+     whose Pulse() callbacks do not restructure anything, the sweep calls Pulse() on exactly the attached nodes y with
+     requested time <= now that are the root itself or have a finite aggregate (i.e. are reachable through scheduled
+     lists).  For now < MUSCLE_TIME_NEVER the last condition is implied (pulse_exact below); at now =
+     MUSCLE_TIME_NEVER it is what distinguishes the code from the naive reading: nodes that asked for "never" and sit
+     on unscheduled lists do not fire, a root or an inner node with a finite aggregate that asked for "never" does *)
+  Definition fires (m : nmap) (r : nat) (now : N) (y : nat) : Prop :=
+    desc m r y /\ (sched (m y) <= now)%N /\ (y = r \/ agg (m y) <> NEVER).
+
+  Theorem pulse_exact_gen f s r now s' :
+    Good nobody (nd s) -> is_root (nd s) r = true -> settled (nd s) r ->
+    agg (nd s r) = N.min (sched (nd s r)) (first_sched_agg (nd s) r) ->
+    top_pulse pl f s r now = Some s' ->
+    Good nobody (nd s') /\
+    exists d, evs s' = d ++ evs s /\ NoDup (map ev_node d) /\
+      (forall e, In e d -> exists y k, e = EPulse y k now (sched (nd s y)) /\ fires (nd s) r now y) /\
+      (forall y, fires (nd s) r now y -> exists k, In (EPulse y k now (sched (nd s y))) d) /\
+      (forall y, fires (nd s) r now y ->
+                 valid (nd s' y) = false /\ (parent (nd s' y) <> None -> cur (nd s' y) = LRecalc)).
+  Proof.
+    intros Hg Hr Hset Hagg H.
+    pose proof (top_pulse_good pl f s r now s' Hg H) as Hg'. split; [assumption|].
+    assert (Hval : forall y, desc (nd s) r y -> valid (nd s y) = true).
+    { intros y Hd. now destruct (settled_desc (nd s) r Hg Hset y Hd) as [[? _] _]. }
+    assert (Hsu : forall y, desc (nd s) r y -> y <> r -> su (cur (nd s y))).
+    { intros y Hd. now destruct (settled_desc (nd s) r Hg Hset y Hd) as [_ ?]. }
+    assert (HLB : forall c y, desc (nd s) r c -> desc (nd s) c y ->
+                  (agg (nd s c) <= sched (nd s y))%N /\ (agg (nd s c) <= agg (nd s y))%N).
+    { intros c y Hc Hy. destruct (settled_desc (nd s) r Hg Hset c Hc) as [Hsc Hsuc].
+      assert (Hex : agg (nd s c) = N.min (sched (nd s c)) (first_sched_agg (nd s) c)).
+      { destruct (Nat.eq_dec c r) as [->|Hne]; [assumption|]. apply (i_k3 _ (g_inv _ _ Hg)); [apply Hsc|auto]. }
+      destruct (agg_lower_bound (nd s) c Hg Hsc Hex y Hy). split; [lia|assumption]. }
+    assert (Hreq : forall y, valid (nd s' y) = false -> parent (nd s' y) <> None -> cur (nd s' y) = LRecalc).
+    { intros y Hv Hp. destruct (g_k2 _ _ Hg' y (fun F => F) Hv) as [Hc|Hc]; [assumption|].
+      destruct (parent (nd s' y)) as [p|] eqn:Hpy; [|congruence].
+      exfalso. eapply (i_listed _ (g_inv _ _ Hg')); eauto. }
+    unfold top_pulse in H. rewrite Hr in H.
+    destruct (N.leb_spec (agg (nd s r)) now) as [Hle|Hgt].
+    - destruct (pulse_aux_evc now f nobody s r s' Hg H) as (d & He & Hv & Hd & Hn & Hc).
+      destruct (pulse_aux_exact now f nobody s r s' Hg Hval Hsu HLB H) as [Hex _].
+      pose proof (pulse_aux_pframe now f nobody s r s' Hg H) as (_ & Hfv & _).
+      exists d. split; [assumption|]. split; [assumption|]. split; [|split].
+      + intros e Hin. destruct (Hd e Hin) as (y & k & -> & Hdue & Hv1 & Hv2). exists y, k.
+        split; [reflexivity|].
+        assert (Hdy : desc (nd s) r y).
+        { destruct (c_acyc _ (i_core _ (g_inv _ _ Hg))) as (rk & B & Hrk & _).
+          destruct (is_anc_spec (nd s) rk Hrk (S (rk y)) r y) as (b & _ & Hb); [lia|].
+          destruct b; [now apply Hb|]. exfalso.
+          assert (Hnd : ~ desc (nd s) r y) by (intro F; apply Hb in F; discriminate).
+          rewrite (Hfv y Hnd) in Hv2. congruence. }
+        split; [assumption|]. now apply (Hex y Hdy).
+      + intros y (Hdy & Hdue & Hre). apply Hc; [now apply Hval|]. apply (Hex y Hdy). auto.
+      + intros y (Hdy & Hdue & Hre). assert (Hvy : valid (nd s' y) = false) by (apply (Hex y Hdy); auto).
+        split; [assumption|now apply Hreq].
+    - inversion H; subst s'. exists []. split; [reflexivity|]. split; [constructor|]. split; [intros e []|].
+      assert (Hno : forall y, fires (nd s) r now y -> False).
+      { intros y (Hdy & Hdue & _). destruct (HLB r y (desc_self _ _) Hdy). lia. }
+      split; intros y Hf; exfalso; eauto.
+  Qed.
+
   (* pulse_exact: on a freshly recalculated tree (root r settled, its aggregate exact) whose Pulse() callbacks
      do not restructure anything, the manager's pulse sweep at time [now] (< MUSCLE_TIME_NEVER) calls Pulse() on
      EXACTLY the nodes attached below r whose requested time is at or before [now]: each of them once, with
@@ -568,38 +641,33 @@ Section PurePulse.
                  valid (nd s' y) = false /\ (parent (nd s' y) <> None -> cur (nd s' y) = LRecalc)).
   Proof.
     intros Hnow Hg Hr Hset Hagg H.
-    pose proof (top_pulse_good pl f s r now s' Hg H) as Hg'. split; [assumption|].
-    assert (Hval : forall y, desc (nd s) r y -> valid (nd s y) = true).
-    { intros y Hd. now destruct (settled_desc (nd s) r Hg Hset y Hd) as [[? _] _]. }
-    assert (Hsu : forall y, desc (nd s) r y -> y <> r -> su (cur (nd s y))).
-    { intros y Hd. now destruct (settled_desc (nd s) r Hg Hset y Hd) as [_ ?]. }
-    assert (HLB : forall c y, desc (nd s) r c -> desc (nd s) c y -> (agg (nd s c) <= sched (nd s y))%N).
-    { intros c y Hc Hy. destruct (settled_desc (nd s) r Hg Hset c Hc) as [Hsc Hsuc].
-      assert (Hex : agg (nd s c) = N.min (sched (nd s c)) (first_sched_agg (nd s) c)).
-      { destruct (Nat.eq_dec c r) as [->|Hne]; [assumption|]. apply (i_k3 _ (g_inv _ _ Hg)); [apply Hsc|auto]. }
-      destruct (agg_lower_bound (nd s) c Hg Hsc Hex y Hy). lia. }
-    assert (Hreq : forall y, valid (nd s' y) = false -> parent (nd s' y) <> None -> cur (nd s' y) = LRecalc).
-    { intros y Hv Hp. destruct (g_k2 _ _ Hg' y (fun F => F) Hv) as [Hc|Hc]; [assumption|].
-      destruct (parent (nd s' y)) as [p|] eqn:Hpy; [|congruence].
-      exfalso. eapply (i_listed _ (g_inv _ _ Hg')); eauto. }
-    unfold top_pulse in H. rewrite Hr in H.
-    destruct (N.leb_spec (agg (nd s r)) now) as [Hle|Hgt].
-    - destruct (pulse_aux_evc now f nobody s r s' Hg H) as (d & He & Hv & Hd & Hn & Hc).
-      destruct (pulse_aux_exact now Hnow f nobody s r s' Hg Hval Hsu HLB H) as [Hex _].
-      pose proof (pulse_aux_pframe now f nobody s r s' Hg H) as (_ & Hfv & _).
-      exists d. split; [assumption|]. split; [assumption|]. split; [|split].
-      + intros e Hin. destruct (Hd e Hin) as (y & k & -> & Hdue & Hv1 & Hv2). exists y, k.
-        split; [reflexivity|]. split; [|assumption].
-        destruct (c_acyc _ (i_core _ (g_inv _ _ Hg))) as (rk & B & Hrk & _).
-        destruct (is_anc_spec (nd s) rk Hrk (S (rk y)) r y) as (b & _ & Hb); [lia|].
-        destruct b; [now apply Hb|]. exfalso.
-        assert (Hnd : ~ desc (nd s) r y) by (intro F; apply Hb in F; discriminate).
-        rewrite (Hfv y Hnd) in Hv2. congruence.
-      + intros y Hdy Hdue. apply Hc; [now apply Hval|]. now apply Hex.
-      + intros y Hdy Hdue. assert (Hvy : valid (nd s' y) = false) by now apply Hex. split; [assumption|now apply Hreq].
-    - inversion H; subst s'. exists []. split; [reflexivity|]. split; [constructor|]. split; [intros e []|].
-      assert (Hno : forall y, desc (nd s) r y -> (sched (nd s y) <= now)%N -> False).
-      { intros y Hdy Hdue. pose proof (HLB r y (desc_self _ _) Hdy). lia. }
-      split; intros y Hdy Hdue; exfalso; eauto.
+    destruct (pulse_exact_gen f s r now s' Hg Hr Hset Hagg H) as (Hg' & d & He & Hn & Hd & Hc & Hq).
+    assert (Hfin : forall y, desc (nd s) r y -> (sched (nd s y) <= now)%N -> fires (nd s) r now y).
+    { intros y Hdy Hdue. split; [assumption|]. split; [assumption|]. right.
+      destruct (settled_desc (nd s) r Hg Hset y Hdy) as [Hsy Hsuy].
+      assert (Hex : agg (nd s y) = N.min (sched (nd s y)) (first_sched_agg (nd s) y)).
+      { destruct (Nat.eq_dec y r) as [->|Hne]; [assumption|]. apply (i_k3 _ (g_inv _ _ Hg)); [apply Hsy|auto]. }
+      destruct (agg_lower_bound (nd s) y Hg Hsy Hex y (desc_self _ _)) as [_ Hle]. lia. }
+    split; [assumption|]. exists d. split; [assumption|]. split; [assumption|]. split; [|split].
+    - intros e Hin. destruct (Hd e Hin) as (y & k & -> & Hdy & Hdue & _). exists y, k. auto.
+    - intros y Hdy Hdue. apply Hc. auto.
+    - intros y Hdy Hdue. apply Hq. auto.
+  Qed.
+
+  (* the boundary made explicit: at now = MUSCLE_TIME_NEVER a node that asked for "never" and has no finite time
+     below it does NOT fire although its time is "<= now" -- never-requests are not due even at the end of time *)
+  Corollary never_request_not_fired f s r s' y :
+    Good nobody (nd s) -> is_root (nd s) r = true -> settled (nd s) r ->
+    agg (nd s r) = N.min (sched (nd s r)) (first_sched_agg (nd s) r) ->
+    top_pulse pl f s r NEVER = Some s' ->
+    desc (nd s) r y -> y <> r -> agg (nd s y) = NEVER ->
+    forall k st, ~ In (EPulse y k NEVER st) (firstn (length (evs s') - length (evs s)) (evs s')).
+  Proof.
+    intros Hg Hr Hset Hagg H Hdy Hyr Hay k st Hin.
+    destruct (pulse_exact_gen f s r NEVER s' Hg Hr Hset Hagg H) as (_ & d & He & _ & Hd & _).
+    rewrite He in Hin. rewrite app_length in Hin.
+    replace (length d + length (evs s) - length (evs s)) with (length d) in Hin by lia.
+    rewrite firstn_app, firstn_all, Nat.sub_diag in Hin. simpl in Hin. rewrite app_nil_r in Hin.
+    destruct (Hd _ Hin) as (y' & k' & Heq & _ & _ & [Hr'|Hn]); inversion Heq; subst y'; congruence.
   Qed.
 End PurePulse.
